@@ -37,7 +37,12 @@ def one(rng):
     pos = rng.randrange(1, len(allrecs) + (0 if not foreign else 1))
     ab = record(ABORT, aid, [rng.randrange(256) for _ in range(rng.choice([0, 0, 8, 3]))], rng.choice([0, 0, 5, 255]))
     where = "params" if pos < len(pre) else "stream"
-    recs = allrecs[:pos] + [ab] + (allrecs[pos:] if foreign or rng.random() < 0.3 else [])
+    glue = []
+    if rng.random() < 0.3:
+        # a management query directly in front of the abort (same segment, possibly the same parse call): its reply and the abort
+        # must both come through
+        glue = [rng.choice([record(GETVALUES, 0, nv_all([(b"FCGI_MAX_CONNS", b"")]), rng.choice([0, 3])), record(rng.choice([12, 99]), 0, [1, 2], 0)])]
+    recs = allrecs[:pos] + glue + [ab] + (allrecs[pos:] if foreign or rng.random() < 0.3 else [])
     segs = [(0, 0, flat(recs))]
     how = rng.choice(["all", "fill", "none", "past-eof", "own-status", "propagate", "propagate"])
     if how == "all":
@@ -62,7 +67,7 @@ def one(rng):
         scripts.append([("readall",), ("ret", 0, j)])
     rs = C07.io_script(rng, 200, "r")
     ws = C07.io_script(rng, 100, "w")
-    tags = ["abort", where, "foreign" if foreign else "own", how, "follow%d" % follow]
+    tags = ["abort", where, "foreign" if foreign else "own", how, "follow%d" % follow] + (["query-before-abort"] if glue else [])
     return conn_case(B, 1, segs, scripts, rs, ws, rng.choice([0, 1])), tags
 
 
@@ -135,7 +140,7 @@ def nontrivial(line, tags):
 
 
 def min_classes(tier):
-    return {"params": 150, "stream": 300, "foreign": 150, "follow1": 150, "follow2": 150, "past-eof": 100, "own-status": 100, "propagate": 150, "huge-abort": 6, "sync-handoff": 10, "params-pipelined": 30}
+    return {"params": 150, "stream": 300, "foreign": 150, "follow1": 150, "follow2": 150, "past-eof": 100, "own-status": 100, "propagate": 150, "huge-abort": 6, "sync-handoff": 10, "params-pipelined": 30, "query-before-abort": 200}
 
 
 def oracle(line, impl_line):
